@@ -84,7 +84,7 @@ Next == \E e \in Events(st) :
 Spec == Init /\ [][Next]_vars
 View == st
 Emit ==
-  \/ ~last'.ok /\ Cardinality(last'.failed) > FailCap
+  \/ ~last'.ok /\ Cardinality(last'.failed) > FailCap /\ TLCGet("level") % 5 # 0
   \/ PrintT("EDGE " \o ToJson([from |-> st, e |-> last'.e, ok |-> last'.ok, resp |-> last'.resp,
                                 failed |-> last'.failed, to |-> IF last'.ok THEN st' ELSE [same |-> TRUE]]))
 
